@@ -11,17 +11,22 @@ from . import common, rtcommon
 BASE = {
     "meta": {"imports": {"al": "gv.test/fix/alpha"}},
     "parameters": {"host": "%todo(\"host is missing\")%", "port": "%todo()%", "endpoint": "%host%", "url": "http://%host%:%port%/", "plain": 5,
-                   "m1": "%todo(\"not ready,retry later\")%", "m2": "%todo(\"see step 1 ,then  step 2\")%", "m3": "%todo(\"a,,b\")%", "m4": "x %todo(\"inside, a pattern\")% y"},
+                   "m1": "%todo(\"not ready,retry later\")%", "m2": "%todo(\"see step 1 ,then  step 2\")%", "m3": "%todo(\"a,,b\")%", "m4": "x %todo(\"inside, a pattern\")% y",
+                   # the failing chunk at the beginning / at the end / repeated / next to another failing chunk
+                   "addr": "%host%:%port%", "first": "%todo(\"first chunk\")% tail", "last": "head %host%", "twice": "%host%%host%", "both": "%port%%host%", "deep": "%addr%/%endpoint%"},
     "services": {
         "db": {"todo": True},
         "repo": {"constructor": "NewA", "arguments": ["@db", "%endpoint%"]},
         "api": {"constructor": "al.NewA", "arguments": ["@repo", "%url%"], "scope": "non_shared"},
         "misc": {"constructor": "NewB", "arguments": ["%plain%"]},
+        "srv": {"constructor": "NewA", "arguments": ["%host%:%port%", "%addr%"], "fields": {"Name": "%host%-%plain%"}, "scope": "non_shared"},
     },
 }
 OPS = [
     {"op": "param", "name": "host"}, {"op": "param", "name": "endpoint"}, {"op": "param", "name": "url"}, {"op": "param", "name": "port"},
     {"op": "param", "name": "m1"}, {"op": "param", "name": "m2"}, {"op": "param", "name": "m3"}, {"op": "param", "name": "m4"},
+    {"op": "param", "name": "addr"}, {"op": "param", "name": "first"}, {"op": "param", "name": "last"}, {"op": "param", "name": "twice"}, {"op": "param", "name": "both"}, {"op": "param", "name": "deep"},
+    {"op": "get", "name": "srv"},
     {"op": "get", "name": "db"}, {"op": "get", "name": "repo"}, {"op": "get", "name": "api"}, {"op": "get", "name": "misc"},
     {"op": "override_param", "name": "host", "kind": "str", "value": "localhost"}, {"op": "override_param", "name": "port", "kind": "int", "value": 8080},
     {"op": "override_param", "name": "plain", "kind": "str", "value": "six"},
